@@ -33,6 +33,7 @@ func runC11(c *Check) {
 	// subscription raises its closing signal before taking the locks a blocked Publish holds
 	c07PersistedGuard(c, P+".O2", r)
 	c07TeardownOrder(c, P+".O1", r)
+	c07LockOrder(c, P+".O1", r)
 	// registration after the replays were started, on every path
 	for _, ad := range Callers([]*ssa.Function{R}, r.AddSub) {
 		for _, ret := range Returns(R) {
